@@ -521,6 +521,112 @@ def rollback_reentry_scenario(res, how, fail_on, T):
         res.violation("C09:service-alive-after-stop/%s/async" % how, "%d" % out["live_after_stop"], wit)
 
 
+def slow_cancel_scenario(res, turns, how):
+    """Async engine: a service whose cancellation needs several loop turns to unwind (awaited cleanup
+    in `finally`).  Once its state has been exited - i.e. by the time the next state's entry action
+    runs - and once stop() has returned, it must not be alive any more."""
+    live = {"n": 0}
+    seen = {}
+
+    async def svc(i, c, e):
+        live["n"] += 1
+        try:
+            await asyncio.sleep(1000)
+        finally:
+            for _ in range(turns):
+                await asyncio.sleep(0)
+            live["n"] -= 1
+
+    def enter_o(i, c, e, a):
+        seen["at-entry-of-next-state"] = live["n"]
+    cfg = {"id": "m", "initial": "idle", "states": {
+        "idle": {"on": {"GO": "w"}},
+        "w": {"invoke": {"src": "svc", "id": "job"}, "on": {"LEAVE": "o", "SELF": {"target": "w", "reenter": True}}},
+        "o": {"entry": ["enter_o"], "on": {"BACK": "w"}}}}
+    machine = create_machine(cfg, logic=MachineLogic(actions={"enter_o": enter_o}, services={"svc": svc}))
+
+    async def body():
+        it = Interpreter(machine)
+        await it.start()
+        await it.send("GO")
+        await asyncio.sleep(0.002)
+        if how == "leave":
+            await it.send("LEAVE")
+            await asyncio.sleep(0.002)
+            seen["after-exit-settled"] = live["n"]
+        elif how == "reenter":
+            await it.send("SELF")
+            await asyncio.sleep(0.002)
+            seen["after-reentry-settled"] = live["n"] - 1      # the new activation's own service
+        await it.stop()
+        seen["after-stop"] = live["n"]
+        await asyncio.sleep(0.01)
+        seen["later"] = live["n"]
+    run_virtual(body)
+    res.evaluations += 1
+    res.count("slow-cancel.scenarios")
+    res.hashes.add(h(["slow-cancel", turns, how]))
+    for k, v in seen.items():
+        if v:
+            res.violation("C09:service-alive-%s/multi-turn-cancellation/async" % k,
+                          "%d instance(s) of the exited state's service still alive %s (its cancellation "
+                          "takes %d loop turns)" % (v, k.replace("-", " "), turns),
+                          {"config": cfg, "how": how, "turns": turns, "observed": seen})
+            break
+
+
+def same_invoke_id_two_states(res, engine, order):
+    """Two states invoke under the same explicit id; only one declares onError.  Each failure is
+    judged by the state that owns it: handled -> onError taken, unhandled -> status error."""
+    def bad(i, c, e):
+        raise ServiceBoom("x")
+    handled = {"invoke": {"src": "bad", "id": "job", "onError": {"target": "rest", "actions": ["caught"]}}}
+    unhandled = {"invoke": {"src": "bad", "id": "job"}}
+    log = []
+    first, second = (handled, unhandled) if order == "handled-first" else (unhandled, handled)
+    cfg = {"id": "m", "initial": "idle", "states": {
+        "idle": {"on": {"GO": "a"}}, "a": first, "rest": {"on": {"NEXT": "b"}}, "b": second, }}
+    if order != "handled-first":
+        # the unhandled one first would end the machine: reach the handled one first through a detour
+        cfg["states"]["idle"]["on"]["GO"] = "b"
+        cfg["states"]["rest"]["on"]["NEXT"] = "a"
+    machine = create_machine(cfg, logic=MachineLogic(actions={"caught": lambda i, c, e, a: log.append("caught")},
+                                                     services={"bad": bad}))
+    out = {}
+    if engine == "sync":
+        it = SyncInterpreter(machine).start()
+        it.send("GO")
+        out["s1"] = (it.status, sorted(config_of(it)))
+        it.send("NEXT")
+        out["s2"] = (it.status, sorted(config_of(it)))
+        it.stop()
+    else:
+        async def body():
+            it = Interpreter(machine)
+            await it.start()
+            await it.send("GO")
+            await asyncio.sleep(0.005)
+            out["s1"] = (it.status, sorted(config_of(it)))
+            await it.send("NEXT")
+            await asyncio.sleep(0.005)
+            out["s2"] = (it.status, sorted(config_of(it)))
+            await it.stop()
+        run_virtual(body)
+    res.evaluations += 1
+    res.count("same-invoke-id.scenarios." + engine)
+    res.hashes.add(h(["same-id", engine, order]))
+    wit = {"engine": engine, "order": order, "config": cfg, "observed": out, "onError_ran": log}
+    # the state visited first is the handled one in both orders (GO leads to it)
+    if out["s1"][0] != "running" or log != ["caught"]:
+        res.violation("C09:declared-onError-not-taken/same-invoke-id/%s" % engine,
+                      "the failure of the state that declares onError: status %s, handler ran %s" % (
+                          out["s1"][0], log), wit)
+    elif out["s2"][0] != "error":
+        res.violation("C09:unhandled-failure-did-not-fail-the-machine/same-invoke-id/%s" % engine,
+                      "a service failed in a state without onError (same invoke id as a state that has one): "
+                      "status %s" % out["s2"][0], wit)
+
+
 def run_chunk(spec):
     observe.quiet_logs()
     res = Result()
@@ -576,6 +682,18 @@ def run_chunk(spec):
             res.sample(wit)
             n += 1
     k = 0
+    for turns in (2, 5):
+        for how in ("leave", "reenter", "stop"):
+            if k % NCHUNKS == ci:
+                wd.arm("slow cancel %d %s" % (turns, how))
+                slow_cancel_scenario(res, turns, how)
+            k += 1
+    for engine in ("sync", "async"):
+        for order in ("handled-first", "detour"):
+            if k % NCHUNKS == ci:
+                wd.arm("same invoke id %s" % engine)
+                same_invoke_id_two_states(res, engine, order)
+            k += 1
     for how in ("self", "up"):
         for fail_on in (2, 3, 4):
             for T in (3, 8):
@@ -591,7 +709,8 @@ def quota(counters, tier):
     out = []
     for k in ("schedules.async", "schedules.sync", "service-calls", "handler-firings",
               "schedules.kind.plain", "schedules.kind.coro", "schedules.kind.machine",
-              "schedules.kind.machineslow", "schedules.kind.awaitable", "rollback-reentry.scenarios",
+              "schedules.kind.machineslow", "schedules.kind.awaitable", "rollback-reentry.scenarios", "slow-cancel.scenarios", "same-invoke-id.scenarios.sync",
+              "same-invoke-id.scenarios.async",
               "unhandled-failures", "census.after-exit", "schedules.with-leave-or-reentry"):
         if counters.get(k, 0) == 0:
             out.append("monitor-never-reached:" + k)
